@@ -28,7 +28,7 @@ import kgen
 
 ID = 'C13'
 TITLE = 'COLMAP export then import preserves cameras, poses, features and structure'
-GEN = ['PairId']
+GEN = ['PairId', 'ColmapCameras']
 RULE = ('each case = one generated dataset inside COLMAP\'s range: 1..3 cameras over the 11 COLMAP models (integer image '
         'sizes), optional sensors that take no picture (a depth sensor still gets a colmap camera id), 0..3 rigs forming a forest (rigs on rigs), trajectories on cameras and rigs '
         'without double posing, 1..7 images with unique names (sub-directories, spaces, non-ASCII) drawn so that image-id '
